@@ -251,34 +251,53 @@ def check(run: Run) -> None:
             run.violation("R14.3", pj, fi.qualname, node, f"the projector performs a document {kind} on `.{fld}`: a projection must not rewrite what it keeps (and must not modify the caller's document)")
         for call, cls in cons:
             run.violation("R14.3", pj, fi.qualname, call, f"the projector constructs a {cls}: projections only remove")
+        own_funcs = {f.name for f in pj.functions.values()}
+
+        def filter_result(e: ast.AST, depth: int = 0) -> bool:
+            """the result of one of the projector's own (recursive) filter functions, directly or through a local"""
+            if isinstance(e, ast.Call) and isinstance(e.func, ast.Name) and e.func.id in own_funcs:
+                return True
+            if isinstance(e, ast.Name) and depth < 3:
+                defs = [a.value for a in walk_no_nested(fi.node) if isinstance(a, ast.Assign) and any(is_name(t, e.id) for t in a.targets)]
+                return bool(defs) and all(filter_result(d, depth + 1) for d in defs)
+            return False
+
+        returned = {r.value.id for r in walk_no_nested(fi.node) if isinstance(r, ast.Return) and isinstance(r.value, ast.Name)}
         for n in walk_no_nested(fi.node):
             if isinstance(n, ast.Call) and ast.unparse(n.func) in ("replace", "dataclasses.replace"):
                 kws = {k.arg for k in n.keywords}
                 ok = kws <= {"children", "sections"} and len(n.args) == 1 and isinstance(n.args[0], ast.Name)
-                # the replacement value is the result of the recursive filter
+                # the replacement value is the result of the (recursive) filter
                 for k in n.keywords:
-                    src = k.value
-                    if isinstance(src, ast.Name):
-                        defs = [a.value for a in walk_no_nested(fi.node) if isinstance(a, ast.Assign) and any(is_name(t, src.id) for t in a.targets)]
-                        ok = ok and bool(defs) and all(isinstance(d, ast.Call) and ast.unparse(d.func) == "filter_recursively" for d in defs)
-                    else:
-                        ok = False
+                    ok = ok and filter_result(k.value)
                 run.instance("R14.3", pj.loc(n), f"{fi.qualname}: `{norm(n)}` replaces only the child list, with the filter's result", ok=ok)
                 if not ok:
                     run.violation("R14.3", pj, fi.qualname, n, "dataclasses.replace in the projector changes something other than children/sections, or sets them to something that is not the recursive filter's result")
-            if isinstance(n, ast.Call) and isinstance(n.func, ast.Attribute) and n.func.attr == "append" and isinstance(n.func.value, ast.Name) and n.func.value.id == "filtered":
+            if isinstance(n, ast.Call) and isinstance(n.func, ast.Attribute) and n.func.attr == "append" and isinstance(n.func.value, ast.Name) and (n.func.value.id == "filtered" or n.func.value.id in returned) and n.args:
                 a = n.args[0]
                 ok = isinstance(a, ast.Name) or (isinstance(a, ast.Call) and ast.unparse(a.func) in ("replace", "dataclasses.replace"))
                 run.instance("R14.3", pj.loc(n), f"{fi.qualname}: `{norm(n)}` keeps an existing node or its child-filtered copy", ok=ok)
                 if not ok:
                     run.violation("R14.3", pj, fi.qualname, n, "the filter appends something that is neither an existing node nor replace(node, children=...)")
-    # the keep test is by key membership
-    ff = pj.func("_filter_fields.<locals>.filter_recursively")
-    tests = [n for n in walk_no_nested(ff.node) if isinstance(n, ast.Compare) and isinstance(n.ops[0], ast.In) and ast.unparse(n.left).endswith(".key")]
-    ok = len(tests) == 1 and ast.unparse(tests[0].comparators[0]) == "keep_set"
-    run.instance("R14.3", pj.loc(ff.node), "filter_recursively: a node is kept when node.key in keep_set", ok=ok)
+    # the keep test is by key membership in the set made from the caller's keep list: exactly one such test in the module
+    tests = []
+    for fi in pj.functions.values():
+        params = {a.arg for a in fi.node.args.args}  # type: ignore[attr-defined]
+        from_param = {a.targets[0].id for a in walk_no_nested(fi.node) if isinstance(a, ast.Assign) and len(a.targets) == 1 and isinstance(a.targets[0], ast.Name) and isinstance(a.value, ast.Call) and ast.unparse(a.value.func) in ("set", "frozenset") and len(a.value.args) == 1 and isinstance(a.value.args[0], ast.Name) and a.value.args[0].id in params}
+        # (a closure reads the enclosing function's set)
+        outer = pj.functions.get(fi.parent_func) if fi.parent_func else None
+        if outer is not None:
+            oparams = {a.arg for a in outer.node.args.args}  # type: ignore[attr-defined]
+            from_param |= {a.targets[0].id for a in walk_no_nested(outer.node) if isinstance(a, ast.Assign) and len(a.targets) == 1 and isinstance(a.targets[0], ast.Name) and isinstance(a.value, ast.Call) and ast.unparse(a.value.func) in ("set", "frozenset") and len(a.value.args) == 1 and isinstance(a.value.args[0], ast.Name) and a.value.args[0].id in oparams}
+        for n in walk_no_nested(fi.node):
+            if isinstance(n, ast.Compare) and len(n.ops) == 1 and isinstance(n.ops[0], (ast.In, ast.NotIn)) and ast.unparse(n.left).endswith(".key"):
+                c = n.comparators[0]
+                tests.append((fi, n, isinstance(c, ast.Name) and (c.id in from_param or c.id in params)))
+    ok = len(tests) == 1 and tests[0][2]
+    where = tests[0][0] if tests else pj.func("_filter_fields")
+    run.instance("R14.3", pj.loc(where.node), f"{where.qualname}: a node is kept when node.key is in the set made from the keep list ({len(tests)} membership test(s))", ok=ok)
     if not ok:
-        run.violation("R14.3", pj, ff.qualname, "node.key in keep_set", "the projector's keep test is no longer `node.key in keep_set`")
+        run.violation("R14.3", pj, where.qualname, "node.key in keep_set", "the projector's keep test is no longer one membership test of the node's key in the set made from the caller's keep list")
 
     # ---------------------------------------------------------------- R14.5
     for modname, qual in (("mcp.eject", "EjectTool.execute"), ("cli.main", "eject")):
